@@ -22,6 +22,9 @@ fn dispatch(op: &str, args: &[Sexp]) -> String {
     match op {
         "f.enc" => crate::props::c15::op_enc(args),
         "f.dec" => crate::props::c15::op_dec(args),
+        "tf.apply" => crate::props::c12::op_apply(args),
+        "tf.general" => crate::props::c12::op_general(args),
+        "raw.flatten" => crate::props::c12::op_flatten(args),
         "geom.contains" => crate::props::c13::op_contains(args),
         "dep.generic" => crate::props::c17::op_generic(args),
         "dep.raw" => crate::props::c17::op_raw(args),
